@@ -31,6 +31,22 @@ CHECKS = {
         text="The real visit_leaves, transform, multi-TAN and multi-WCS producer/worker code runs over the virtual multiprocessing layer; every interleaving of puts, feeder flushes, receives, receive timeouts, close/join_thread, the done flag and worker exits is explored per configuration; at every terminal state the processed item set must equal the serial set (itself compared with the reference quadtree), every item is delivered at most once with its own tile geometry, all workers have exited, no lock file remains; the termination analysis shows a returning continuation from every reachable state.",
         note=_E1_NOTE,
     ),
+    "C04": dict(
+        engine="bex",
+        category="exploration",
+        design_ref="5/C04",
+        technique="exhaustive enumeration of all tile positions to a depth bound against an independent 3-D reference subdivision; four construction routes compared",
+        text="All 4^n tiles at depths 1..7 (1..9 thorough) from generate_tiles, in both coordinate systems, are compared with an independent 3-D unit-vector reference built only from the documented layout (corners to 1e-9 rad, diagonal orientation), toast_tile_area against the reference area and summed to 4*pi per level (n<=6), children must reproduce their parent's corners and edge midpoints and areas, neighbours must share corner points (1e-12); create_single_tile, the path-filtered generator and point lookup at the reference centre must agree with enumeration for every tile to depth 4 (5) and on a deterministic deep lattice to depth 14 (20).",
+        note="Reference vt/ref/toastgeom.py. Beyond the depth bound only the lattice x,y in {0,1,2^(n-1)-1,2^(n-1),2^n-2,2^n-1} is covered.",
+    ),
+    "C05": dict(
+        engine="bex",
+        category="exploration",
+        design_ref="5/C05",
+        technique="exhaustive per-pixel comparison of tile coordinate grids with reference deeper-tile centres for all tiles to a depth bound",
+        text="For every tile at depths 1..2 (1..4) and a deep lattice to depth 10 (12), both coordinate systems (both diagonal orientations at every depth), all 65 536 pixel coordinates returned by toast_tile_get_coords are compared with the reference centres of tiles (n+8, 256x+j, 256y+i) (1e-9 rad), must lie inside the tile (half-space test) and within the latitude span of its corners; for depth-1 (and depth-2) tiles the public Python-side generator is descended eight levels (65 536 tiles each) and its tile centres must agree with the compiled grid.",
+        note="The compiled helper is exercised as built: Cython is not installed, so edits to _libtoasty.pyx cannot be rebuilt (a changed generated .c is).",
+    ),
     "C08": dict(
         engine="bex",
         category="exploration",
@@ -46,6 +62,14 @@ CHECKS = {
         technique="stateful exhaustive interleaving exploration of lock/read/write steps of concurrent update_image blocks",
         text="N=2..3 virtual processes run the real PyramidIO.update_image read-modify-write blocks (1-2 each, disjoint and overlapping regions, one or two tiles, both naming schemes, explicit format) over a virtual existence lock and tile-I/O layer in which lock-acquire, read, write-begin, write-end and release are choice points; all interleavings are explored. At every terminal state the tile must equal some serial order of the updates, no lock file may remain; any read or write overlapping an unfinished write of the same path is flagged at the step where it happens; deadlock and non-termination are detected on the state graph. A free-running run with real processes and the real SoftFileLock binds the lock model to reality.",
         note=_E1_NOTE + " SoftFileLock itself is modelled (existence lock), not verified.",
+    ),
+    "C12": dict(
+        engine="bex",
+        category="exploration",
+        design_ref="5/C12",
+        technique="exhaustive enumeration of lattice/boundary points x longitude shifts x depths x coordinate systems against reference point-in-tile and pixel-centre geometry",
+        text="Every vertex of the level-4 (5) TOAST lattice - the corners, edge midpoints and centres of all coarser tiles, i.e. edges, equator diamond, seam and poles - plus a 24x13 grid and near-pole/seam points, each at longitude shifts 0, +-2pi, +4pi, is looked up at every depth 0..6 (0..8) in both coordinate systems: the returned tile must contain the point (reference half-space test, 1e-9), be nested in the previous depth's answer, equal create_single_tile of its position, and be periodic (or, on a shared edge, another containing tile); the fractional pixel position at depths 1,3,6 must be within 2 pixels of the nearest reference pixel centre for points >= 1 degree from the poles.",
+        note="Continuum between lattice points not covered; shared-edge points may resolve to either tile.",
     ),
     "C13": dict(
         engine="bex",
